@@ -66,7 +66,7 @@ def plan(prop, tier):
         return explorer_plan(
             "c06", tier, 2500, 120000, GEN_RULE + "; C06 oracle: cancel requests vs drops (target, count, room), allocator exactly-once and leak ledger after teardown; plus realmix: histories on the real kernel with the leak ledger after all objects were dropped in a random order; plus c06mt: baton-scheduled worker threads dropping in-flight futures while the ring thread consumes their completions (leak/double-free ledger over the whole schedule)",
             ["drop:Single:in-flight", "drop:Single:never-polled", "drop:Single:finished", "drop:Multi:multishot-mid-stream", ["drop:TwoStep:between-two-completions", "drop:TwoStep:in-flight"], "drop:Single:queued-not-consumed", "simk_cancels", "mt-drop:workers=2", "mt-drop:workers=3", "mt-drop:ring-dropped-early"],
-            extra_quick=[gen_job("c06mt", "native-debug", 500, 8, timeout=400), gen_job("c06free", "miri", 2, 4, timeout=900), gen_job("realmix", "native-debug", 1000, 8, timeout=600)],
+            extra_quick=[gen_job("c06mt", "native-debug", 500, 8, timeout=400), gen_job("c06free", "miri", 2, 4, timeout=900), gen_job("realmix", "native-debug", 1000, 8, timeout=600), gen_job("realmixsq", "native-debug", 150, 8, timeout=600)],
             extra_thorough=[gen_job("c06", "asan", 3000, 16, timeout=1200, lsan=True), gen_job("realmix", "native-debug", 30000, 16, timeout=3000), gen_job("realmix", "native-release", 30000, 16, timeout=3000),
                             gen_job("c06mt", "native-debug", 8000, 16, timeout=1800), gen_job("c06mt", "asan", 500, 16, timeout=1800), gen_job("c06free", "tsan", 60, 8, timeout=3000), gen_job("c06free", "miri", 6, 16, timeout=3000)],
         )
@@ -120,8 +120,8 @@ def plan(prop, tier):
         return explorer_plan(
             "c07", tier, 2500, 100000, GEN_RULE + "; restricted to descriptor-creating operations (open/socket/accept/multishot accept on regular and on direct-descriptor listeners/pipe/to_direct/to_file, regular and direct), AsyncFd::close, standard-stream handles, 1-4 entry queues so that the synchronous close fallback runs; C07 oracle: descriptor ledger fed by the close(2) interposer, IORING_OP_CLOSE, files-update and the creating completions; direct indices live in 3000.. so that a descriptor closed as the wrong kind is unmistakable; plus realmix on the real kernel: socket/pipe/to_direct operations (regular and direct) driven to completion, new pipes must carry bytes, descriptors dropped or closed explicitly at random, the process' descriptor count before/after each history and re-allocation of the whole direct table once every direct descriptor was dropped",
             ["stdio-handle-dropped", "kind:SocketDirect", "kind:PipeDirect", "kind:Close", "kind:MultishotAccept", "kind:AcceptDirect", "kind:MultishotAcceptDirect", "drop:Single:in-flight", "drop:Single:completion-posted-not-consumed", "drop:Single:done-not-collected", "simk_closes", "real_descriptor_ops"],
-            extra_quick=[gen_job("realmix", "native-debug", 1000, 8, timeout=600)],
-            extra_thorough=[gen_job("realmix", "native-debug", 30000, 16, timeout=3000), gen_job("realmix", "native-release", 30000, 16, timeout=3000)],
+            extra_quick=[gen_job("realmix", "native-debug", 1000, 8, timeout=600), gen_job("realmixsq", "native-debug", 150, 8, timeout=600)],
+            extra_thorough=[gen_job("realmix", "native-debug", 30000, 16, timeout=3000), gen_job("realmix", "native-release", 30000, 16, timeout=3000), gen_job("realmixsq", "native-debug", 4000, 16, timeout=3000)],
         )
     if prop == "C12":
         import math
@@ -133,7 +133,8 @@ def plan(prop, tier):
         if tier != "quick":
             jobs += [gen_job("c12", "native-release", math.ceil(total / 16), 16, timeout=900), gen_job("c12", "asan", math.ceil(total / 16), 16, timeout=1800, lsan=False), gen_job("c12", "miri", 12, 16, timeout=2400)]
         # Corroboration on the real kernel (sampled, does not count towards the enumeration).
-        jobs += [gen_job("realmix", "native-debug", 1000 if tier == "quick" else 30000, 8 if tier == "quick" else 16, timeout=3000, aux=True)]
+        jobs += [gen_job("realmix", "native-debug", 1000 if tier == "quick" else 30000, 8 if tier == "quick" else 16, timeout=3000, aux=True),
+                 gen_job("realmixsq", "native-debug", 150 if tier == "quick" else 4000, 8 if tier == "quick" else 16, timeout=3000, aux=True)]
         return dict(jobs=jobs, level="fault_enumeration", rule=rule, floor_cells=["set:0", "set:1", "set:2", "set:3", "ring-position:0", "ring-position:6", "sync-cancel-mode:1", "sync-cancel-mode:2", "sync-cancel-mode:3", "first:ReadBuf", "first:Pool", "real_ops_dropped_in_flight"],
                     floor_evaluations=20000, exhaustive=True, assumptions=SIMK_ASSUMPTIONS + ["the realmix job (random histories and teardown orders on the real io_uring of this machine with the leak ledger, the quarantine poison check and the descriptor count) is sampled corroboration, not part of the enumeration"], also=[])
     if prop == "C18":
